@@ -7,7 +7,7 @@ test -f /opt/veriftools/tla/tla2tools.jar || { echo "tla2tools.jar missing"; exi
 test -x /venv/bin/python || { echo "/venv/bin/python missing"; exit 1; }
 /venv/bin/python -m compileall -q harness >/dev/null
 tmp=$(mktemp -d)
-cp spec/*.tla "$tmp"/
+cp spec/*.tla spec/apalache/*.tla "$tmp"/
 fail=0
 for f in "$tmp"/*.tla; do
   (cd "$tmp" && java -cp /opt/veriftools/tla/tla2tools.jar:/opt/veriftools/tla/CommunityModules-deps.jar tla2sany.SANY "$(basename "$f")" >"$tmp/sany.out" 2>&1) || true
